@@ -72,7 +72,8 @@ fn gen_target(r: &mut Rng, prelude: &[PreCred], actor: &Actor) -> OpKind {
         86..=92 => OpKind::U2fRegister {
             challenge: r.bytes(32),
             application: r.bytes(32),
-            handle: r.bytes_range(0, 64),
+            // (the handle is the token firmware's choice: U2fApi::register takes any length)
+            handle: if r.chance(1, 8) { r.bytes_range(250, 400) } else { r.bytes_range(0, 64) },
             le: r.bool(),
         },
         _ => OpKind::U2fAuthenticate {
